@@ -199,10 +199,41 @@ func orNil(p *TermPool, a, b *Term) *Term {
 // applySummary returns the application value for a call with (some) symbolic arguments.
 func applySummary(pool *TermPool, fd *FuncDef, fn *ssa.Function, args []value) value {
 	var ts []*Term
+	anyConst := false
 	for _, a := range args {
-		ts = append(ts, anyTerm(pool, a))
+		x := anyTerm(pool, a)
+		if x.IsConst() || x.IsTrue() || x.IsFalse() {
+			anyConst = true
+		}
+		ts = append(ts, x)
 	}
-	t := pool.App(fd, ts)
+	var t *Term
+	if anyConst {
+		// partial evaluation: inline the body specialised to the constant arguments
+		key := fd.name
+		env := map[string]*Term{}
+		for i, x := range ts {
+			if x.IsConst() || x.IsTrue() || x.IsFalse() {
+				key += fmt.Sprintf("|%d=%d", i, x.id)
+				env[fd.params[i].name] = x
+			}
+		}
+		spec, ok := pool.specCache[key]
+		if !ok {
+			spec = pool.Subst(fd.body, env, map[int]*Term{})
+			pool.specCache[key] = spec
+		}
+		if spec.Size() <= 400 {
+			env2 := map[string]*Term{}
+			for i, x := range ts {
+				env2[fd.params[i].name] = x
+			}
+			t = pool.Subst(spec, env2, map[int]*Term{})
+		}
+	}
+	if t == nil {
+		t = pool.App(fd, ts)
+	}
 	k, _ := scalarKind(fn.Signature.Results().At(0).Type())
 	if k == types.Bool {
 		return fromBoolTerm(t)
